@@ -22,12 +22,14 @@ META = {
                  'preemption-bounded schedule exploration of HostConnection, on the real Session over a virtual server; monitor on close()',
     'text': 'HostConnection (v4; 5 request slots, orphan threshold 2) inside a real Cluster/Session.  Engine E: all histories up to the '
             'depth bound of: new request, answer to any outstanding request (incl. late answers to orphaned streams), answer to a live '
-            'request with an error that the retry policy retries on the same host (at most one per history; the retry is an executor task), '
+            'request with an error that the retry policy retries on the same host (one per history, in the harnesses fresh-with-retry, '
+            'replacement-and-retry-queued-3-live and late-timeout-overloaded-2-live; the retry is an executor task), '
             'client timeout of any request whose timer runs (incl. a request whose response has already been processed and whose retry is '
             'still queued: its stream is no longer on the wire), next executor task (replacement or retry) with its connect accepted or '
             'refused (then retried); started from the fresh pool and from states where the connection has just reached the threshold with '
-            '0, 1 or 2 live requests on it, the 2-live state also with an answered request whose retry is queued and whose timer is still '
-            'running, and after that timer fired.  A hook on close() '
+            '0, 1 or 2 live requests on it; also from the state with the replacement queued, three live requests and an answered request '
+            'whose retry is queued and whose timer is still running, and from the 2-live state reached after such a timer fired.  A hook '
+            'on close() '
             'judges, at the moment the pool closes a connection, that no request the client still waits for is outstanding on it (what is '
             'outstanding is taken from what the server received and answered, what was given up from the explorer\'s own timeout '
             'events).  In every state: a connection that was replaced and carries only orphaned streams is closed; once the threshold was '
@@ -63,15 +65,15 @@ def e_configs(ctx):
         ('replacement-queued-2-live', dict(BASE, prefix=[R, R, R] + TO01 + [R], n_req=5), 5),
         # one answer may be an error that is retried (the retry waits on the executor; the client timer keeps running)
         ('fresh-with-retry', dict(BASE, max_retry=1, n_req=3), 7),
-        # q0's response has been processed, its retry is queued, its timer is live; q1 and q2 were given up
-        # (threshold reached), q3 and q4 are live
-        ('retry-queued-overloaded-2-live', dict(BASE, prefix=[R, R, R, R, R, RETRY0] + TO12, max_retry=1, n_req=6), 6),
+        # q1 and q2 were given up (threshold reached), q5 has queued the replacement, then q0's response was processed:
+        # its retry is queued behind the replacement and its timer is still running; q3, q4 and q5 are live
+        ('replacement-and-retry-queued-3-live', dict(BASE, prefix=[R, R, R, R, R] + TO12 + [R, RETRY0], max_retry=1, n_req=6), 5),
         # the same after q0's timer fired late (q0 is no longer on the wire) and the retry task found nothing to do
         ('late-timeout-overloaded-2-live', dict(BASE, prefix=[R, RETRY0, ('timeout', 0), T, R, R, R, R] + TO12, max_retry=1,
                                                 n_req=7), 5),
     ]
     if ctx.thorough:
-        q = [(n, dict(p, task_window=2, max_fail=2), d + (1 if n.startswith('retry-queued') else 3 if '2-live' in n else 2))
+        q = [(n, dict(p, task_window=2, max_fail=2), d + (3 if '2-live' in n else 2))
              for n, p, d in q]
     return q
 
